@@ -20,11 +20,16 @@ package syncer
 //     database as, the position before.
 
 import (
+	"bufio"
+	"context"
 	"fmt"
+	"io"
 	"os"
 	"strconv"
 	"strings"
 	"testing"
+	"testing/synctest"
+	"time"
 
 	"github.com/mgtv-tech/redis-GunYu/config"
 	"github.com/mgtv-tech/redis-GunYu/pkg/log"
@@ -229,6 +234,8 @@ func vfC17MGen(r *vfutil.Rand) *vfC17MCase {
 	rootOff := int64(r.Range(0, 900))
 	if seedOff >= 0 && r.Chance(1, 6) {
 		rootOff = seedOff + int64(r.Range(1, 300)) // root newer than the recovery state (a full sync finished)
+	} else if mode == "L" && c.ns.latest != nil && r.Chance(1, 4) {
+		rootOff = c.ns.latest.EndOffset + int64(r.Range(-1, 1)) // boundary of "root newer"
 	}
 	fields := [][2]string{{rid + "_runid", rid}, {rid + "_version", config.Version}, {rid + "_offset", strconv.FormatInt(rootOff, 10)}, {rid + "_mtime", "1700000000000000000"}}
 	switch r.Intn(8) {
@@ -301,5 +308,173 @@ func TestVerifC17Migrate(t *testing.T) {
 		c := vfC17MGen(r.Fork())
 		vfC17MDo(t, s, c, tag, "gen")
 		tag++
+	}
+}
+
+// ------------------------------------------------------------ gc while the sender runs
+//
+// gcStaleCheckpoint is a cron of the same process that replays (cmd/syncer.go startCron):
+// it runs between two batches of a sender session. The real sendAof (virtual time) replays a
+// stream that visits several source databases, the real gc (VfGcStaleCp = the closure of
+// cmd/syncer.go, live ids = the session's run id) runs at a chosen instant of the session, the
+// stream goes on; afterwards — and after every request prefix — a fresh process reads the
+// resume position with the real RedisOutput.StartPoint. Monitor: once the session has stored a
+// position with its run id, no later crash point may leave the target without a usable position
+// (run id "?") or with a smaller one.
+
+type vfGSCase struct {
+	c      *vfSCase
+	dbs    []int // source databases visited, in order (one SELECT + a few SETs each)
+	gcAt   int   // run gc before visiting dbs[gcAt]
+	stale  time.Duration
+	perDb  int
+	gcLive bool
+}
+
+func (g *vfGSCase) op() string {
+	return fmt.Sprintf("c17gs txn=%v pl=%v bc=%d dbs=%s gcAt=%d stale=%d perDb=%d live=%v", g.c.txn, g.c.pipeline, g.c.bc,
+		checkpoint.VfInts(g.dbs), g.gcAt, int64(g.stale), g.perDb, g.gcLive)
+}
+
+func vfC17GcSender(t *testing.T, s *vfutil.Session, g *vfGSCase, src string) {
+	c := g.c
+	tg := vfdoubles.NewTarget()
+	tg.Lenient = true
+	tg.Seed(0, "hset", config.CheckpointKeyHashKey, c.rid, c.cp)
+	nSeed := tg.LogLen()
+	// stream: per visited db: SELECT db, perDb × SET
+	var chunks [][]byte
+	for i, db := range g.dbs {
+		var b []byte
+		b = append(b, vfEncodeCmd([][]byte{[]byte("select"), []byte(strconv.Itoa(db))})...)
+		for k := 0; k < g.perDb; k++ {
+			b = append(b, vfEncodeCmd([][]byte{[]byte("set"), []byte(fmt.Sprintf("k%d_%d", i, k)), []byte("v")})...)
+		}
+		chunks = append(chunks, b)
+	}
+	gcLogAt := -1
+	synctest.Test(t, func(t *testing.T) {
+		ro := vfNewOutput(c, tg)
+		ro.startDbId = 0
+		ctx, cancel := context.WithCancel(context.Background())
+		defer cancel()
+		pr, pw := io.Pipe()
+		done := make(chan error, 1)
+		go func() { done <- ro.sendAof(ctx, c.rid, bufio.NewReaderSize(pr, 4096), 1000, -1) }()
+		settle := time.Duration(c.perC+c.perB+c.perK) * time.Microsecond * 2
+		for i, ch := range chunks {
+			if i == g.gcAt {
+				gcLogAt = tg.LogLen()
+				cli := checkpoint.VfConn(tg)
+				live := map[string]struct{}{}
+				if g.gcLive {
+					live[c.rid] = struct{}{}
+				}
+				checkpoint.VfGcStaleCp(cli, live, g.stale)
+				cli.Close()
+			}
+			pw.Write(ch)
+			time.Sleep(settle) // batch + checkpoint tickers fire: the position of this database is stored
+		}
+		pw.Close()
+		<-done
+		pr.Close()
+		synctest.Wait()
+		tg.CloseAll()
+	})
+	log := tg.LogCopy()
+	ids := []string{c.rid, "0000000000000000000000000000000000000000"}
+	read := func(k int) (string, int64, bool) {
+		tk := vfdoubles.Replay(log[:k], 0)
+		ro := vfNewOutput(c, tk)
+		sp, err := ro.StartPoint(context.Background(), ids)
+		tk.CloseAll()
+		if err != nil {
+			return "err", 0, false
+		}
+		ok := sp.RunId == c.rid
+		return fmt.Sprintf("%s:%d@%d", sp.RunId, sp.Offset, sp.DbId), sp.Offset, ok
+	}
+	s.Count("gcsender_" + src)
+	have := false
+	best := int64(-1)
+	bestAt := 0
+	checked := 0
+	for k := nSeed; k <= len(log); k++ {
+		if k < len(log) && log[k-1].Queued { // inside MULTI: same state as before it
+			continue
+		}
+		str, off, ok := read(k)
+		checked++
+		if ok && off >= best {
+			have, best, bestAt = true, off, k
+			continue
+		}
+		if have {
+			what := "gc-and-sender-lose-position"
+			last := "-"
+			if k > 0 {
+				last = log[k-1].String()
+			}
+			s.Violate(what, fmt.Sprintf("after request #%d the session had stored a position (offset %d); after request #%d (%s, gc ran at request #%d) a fresh start reads %s",
+				bestAt-nSeed, best, k-nSeed, last, gcLogAt-nSeed, str),
+				map[string]interface{}{"op": g.op(), "crash_after_request": k - nSeed, "reads": str, "had": best})
+			break
+		}
+	}
+	s.Add("gcsender_crash_points", checked)
+	if have {
+		s.Count("gcsender_position_stored")
+	}
+}
+
+func vfC17GcSenderGen(r *vfutil.Rand) *vfGSCase {
+	c := &vfSCase{cp: "redis-gunyu-checkpoint", rid: fmt.Sprintf("%x", r.Bytes(20)), tdb: -1, sdb: -1, resume: true}
+	c.txn = r.Bool()
+	c.pipeline = r.Chance(1, 3)
+	c.bc = uint(vfutil.Pick(r, []int{1, 3, 100}))
+	c.bb = 1 << 30
+	c.perB, c.perK, c.perC = 1000000, 1501000, 2503000
+	g := &vfGSCase{c: c, perDb: r.Range(1, 3), stale: time.Duration(vfutil.Pick(r, []int{1, 3600, 12 * 3600})) * time.Second, gcLive: true} // a running session's id is reported by its source
+	n := r.Range(2, 5)
+	for i := 0; i < n; i++ {
+		g.dbs = append(g.dbs, r.Intn(3))
+	}
+	if r.Bool() { // come back to a database visited before
+		g.dbs = append(g.dbs, g.dbs[0])
+	}
+	g.gcAt = r.Range(1, len(g.dbs)-1)
+	return g
+}
+
+func vfC17GcSenderParse(op string) *vfGSCase {
+	if !strings.HasPrefix(op, "c17gs ") {
+		return nil
+	}
+	kv := map[string]string{}
+	for _, tok := range strings.Fields(op)[1:] {
+		if i := strings.IndexByte(tok, '='); i > 0 {
+			kv[tok[:i]] = tok[i+1:]
+		}
+	}
+	atoi := func(s string) int { n, _ := strconv.Atoi(s); return n }
+	c := &vfSCase{cp: "redis-gunyu-checkpoint", rid: "aaaaaaaaaaaaaaaaaaaaaaaaaaaaaaaaaaaaaaaa", tdb: -1, sdb: -1, resume: true,
+		txn: kv["txn"] == "true", pipeline: kv["pl"] == "true", bc: uint(atoi(kv["bc"])), bb: 1 << 30, perB: 1000000, perK: 1501000, perC: 2503000}
+	st, _ := strconv.ParseInt(kv["stale"], 10, 64)
+	return &vfGSCase{c: c, dbs: checkpoint.VfUnInts(kv["dbs"]), gcAt: atoi(kv["gcAt"]), stale: time.Duration(st), perDb: atoi(kv["perDb"]), gcLive: kv["live"] == "true"}
+}
+
+func TestVerifC17GcSender(t *testing.T) {
+	s := vfutil.NewSession("C17gs")
+	defer s.Close()
+	r := vfutil.NewRand(vfutil.Seed())
+	for _, l := range vfutil.Corpus("C17") {
+		if g := vfC17GcSenderParse(l); g != nil {
+			vfC17GcSender(t, s, g, "corpus")
+		}
+	}
+	n := vfutil.Scale(60, 1500)
+	for i := 0; i < n; i++ {
+		vfC17GcSender(t, s, vfC17GcSenderGen(r.Fork()), "gen")
 	}
 }
